@@ -28,6 +28,7 @@ import (
 	"massnet.org/mass/config"
 	mwdb "massnet.org/mass/poc/wallet/db"
 	ldb "massnet.org/mass/poc/wallet/db/ldb"
+	"massnet.org/mass/poc/wallet/keystore/hdkeychain"
 	"massnet.org/mass/poc/wallet/keystore/snacl"
 	"massnet.org/mass/zz_verif/faultdb"
 	"massnet.org/mass/zz_verif/vk"
@@ -43,11 +44,57 @@ const (
 	wP0, wP1, wQ0, wQ1, wBad, wOther = 0, 1, 2, 3, 4, 5
 )
 
-func wSeed(i int) []byte {
+// wSeed: seeds are chosen (by enumerating counters with the real hdkeychain) so that one of
+// the first child private scalars has a leading zero byte - hdkeychain keeps such scalars at
+// 31 bytes, the input class on which length-sensitive key handling goes wrong:
+// seed 0: external key 0 short; seed 1: internal key 0 short; seed 2: external key 1 short;
+// other indices: plain counters.
+var wSeedMemo sync.Map
+
+func wSeedRaw(tag string, c uint32) []byte {
 	s := make([]byte, 32)
-	copy(s, []byte("verif-wallet-seed-"))
-	binary.BigEndian.PutUint32(s[28:], uint32(i+1))
+	copy(s, []byte("verif-wallet-seed-"+tag))
+	binary.BigEndian.PutUint32(s[28:], c)
 	return s
+}
+
+func wSeed(i int) []byte {
+	if v, ok := wSeedMemo.Load(i); ok {
+		return v.([]byte)
+	}
+	want := map[int][2]uint32{0: {0, 0}, 1: {1, 0}, 2: {0, 1}}
+	pos, special := want[i]
+	var out []byte
+	for c := uint32(0); c < 200000; c++ {
+		s := wSeedRaw(fmt.Sprint(i), c)
+		if !special {
+			out = s
+			break
+		}
+		k, err := hdkeychain.NewMaster(s, config.ChainParams)
+		if err != nil {
+			continue
+		}
+		ok := true
+		for _, idx := range []uint32{44 + hdkeychain.HardenedKeyStart, config.ChainParams.HDCoinType + hdkeychain.HardenedKeyStart, uint32(PoCUsage) + hdkeychain.HardenedKeyStart, pos[0], pos[1]} {
+			if k, err = k.Child(idx); err != nil {
+				ok = false
+				break
+			}
+		}
+		if !ok {
+			continue
+		}
+		if p, _ := k.PrivKey(); len(p) < 32 {
+			out = s
+			break
+		}
+	}
+	if out == nil {
+		vk.Fatalf("no seed with a short child scalar found")
+	}
+	wSeedMemo.Store(i, out)
+	return out
 }
 
 var wFast = &ScryptOptions{N: 16, R: 8, P: 1}
